@@ -257,6 +257,50 @@ func cmdCheck(args []string) int {
 			fmt.Printf("VIOLATION property=%s replay=%s%s\n", prop, rp, suffix)
 		}
 	}
+	if prop == "C12" {
+		obs, errs := w.bpfObligations()
+		for _, e := range errs {
+			viol++
+			rp := writeReplay(root, prop, "bpf-extraction", map[string]interface{}{"obligation": "packets.cbpf#extraction", "error": e,
+				"note": "a cBPF program could not be read mechanically from the source or uses an opcode outside the modelled subset"})
+			fmt.Printf("VIOLATION property=%s replay=%s no-failing-input-found\n", prop, rp)
+		}
+		for _, ob := range obs {
+			nObl++
+			r := solve(ob.Query, sanitize(ob.Name), opt.TimeoutMs, opt.Thorough, true)
+			fuc = append(fuc, map[string]interface{}{"unit": ob.Name, "cbpf_instructions": ob.Instrs, "obligations": 1, "secs": round2(r.Secs), "logic": "QF_ABV bit-vector lemma, all frames x all configurations"})
+			if r.Status == "unsat" {
+				nOK++
+				if len(samples) < 8 {
+					samples = append(samples, map[string]interface{}{"obligation": ob.Name, "kind": "bv-lemma", "clause": ob.Text, "at": ob.Pos, "solver": r.Solver, "secs": round2(r.Secs)})
+				}
+				continue
+			}
+			viol++
+			content := map[string]interface{}{"obligation": ob.Name, "clause": ob.Text, "at": ob.Pos, "solver_status": r.Status, "solver": r.Solver, "solver_output": trunc(r.Output, 20000)}
+			confirmed := false
+			if r.Status == "sat" {
+				rep := replayBPF(w, ob)
+				content["replay"] = rep
+				if cfm, ok := rep["confirmed"].(bool); ok && cfm {
+					confirmed = true
+				}
+			}
+			qf := filepath.Join(root, "replays", prop, sanitize(ob.Name)+".smt2")
+			os.MkdirAll(filepath.Dir(qf), 0o755)
+			os.WriteFile(qf, []byte("(set-option :produce-models true)\n"+ob.Query+"(check-sat)\n(get-model)\n"), 0o644)
+			content["query_file"] = qf
+			rp := writeReplay(root, prop, ob.Name, content)
+			suffix := ""
+			if !confirmed {
+				suffix = " no-failing-input-found"
+			}
+			fmt.Printf("VIOLATION property=%s replay=%s%s\n", prop, rp, suffix)
+		}
+		trusted["TRUSTED: semantics of the cBPF opcodes ld/ldh/ldb (abs, ind), ldxb 4*([k]&0xf), jeq, jset, ret (out-of-range load rejects the packet)"] = true
+		trusted["TRUSTED: bpf.Assemble encodes each bpf.Instruction field-wise (the lemma is stated over the instruction list read from the source)"] = true
+		trusted["reference predicates transcribe the property statement; 'unfragmented' is read as fragment offset zero (the MF bit is not inspected)"] = true
+	}
 	var tb []string
 	for k := range trusted {
 		tb = append(tb, k)
